@@ -258,6 +258,7 @@ func (c *cluster) summary() string {
 		vs, ns, ws := r.vp.Members()
 		out += fmt.Sprintf("[%d role=%d t=%d c=%d last=%d app=%d stopped=%v mem=%v/%v/%v pcc=%v] ", r.id, r.vp.Role(), r.vp.Term(),
 			r.vp.Committed(), r.vp.LastIndex(), r.sm.GetLastApplied(), r.stopped, vs, ns, ws, r.vp.PendingCC())
+		out += r.vp.RateLimitInfo() + " "
 	}
 	return out + fmt.Sprintf("inflight=%d", len(c.msgs))
 }
